@@ -270,6 +270,7 @@ pub fn profile_for(prop: &str, tier: &str) -> Profile {
             p.matrix_often = true;
         }
         "C17" => {
+            p.w_trace = 6;
             p.w_keygen = 6;
             p.w_refresh = 6;
             p.w_roundtrip = 3;
